@@ -18,7 +18,8 @@ FOCUSES = [
     ("MC_Loops", "loops-single", {"Variant": '"single"'}, 1, 1),
     ("MC_Loops", "loops-pairs", {"Variant": '"pairs"'}, 2, 3),
     ("MC_Loops", "loops-triples", {"Variant": '"triples"'}, 3, 4),
-    ("MC_Bool", "bool", {}, 1, 2),
+    ("MC_Bool", "bool", {"Variant": '"ops"'}, 1, 1),
+    ("MC_Bool", "bool-trees", {"Variant": '"trees"'}, 1, 1),
     ("MC_Sites", "sites", {}, 3, 3),
     ("MC_Exprs", "exprs", {}, 1, 2),
     ("MC_Lambda", "lambda", {}, 4, 4),
